@@ -320,8 +320,11 @@ pub fn finish(meta: &Meta, ctx: &Ctx, report: &Report) -> i32 {
             .unwrap_or_default()
     );
     if !report.machinery_errors.is_empty() {
-        for e in &report.machinery_errors {
+        for e in report.machinery_errors.iter().take(4) {
             eprintln!("MACHINERY-ERROR {}: {e}", meta.id);
+        }
+        if report.machinery_errors.len() > 4 {
+            eprintln!("MACHINERY-ERROR {}: ... and {} more", meta.id, report.machinery_errors.len() - 4);
         }
         return 2;
     }
